@@ -31,7 +31,7 @@ func init() {
 			{Name: "readfaults", QShards: 4, TShards: 12, Run: c07ReadFaults},
 			{Name: "readfaults-large", QShards: 6, TShards: 12, Run: c07ReadFaultsLarge},
 			{Name: "writefaults", QShards: 2, TShards: 8, Run: c07WriteFaults},
-			{Name: "writefaults-large", QShards: 5, TShards: 12, Run: c07WriteFaultsLarge},
+			{Name: "writefaults-large", QShards: 10, TShards: 16, Run: c07WriteFaultsLarge},
 			{Name: "filefaults", Thorough: true, Run: c07FileFaults},
 		},
 	})
@@ -329,8 +329,10 @@ var _ *rand.Rand
 
 // genLargeWritable returns a record whose output is larger than the usual
 // writer buffer sizes (4 KiB, 16 KiB, 64 KiB).
-func genLargeWritable(r *rand.Rand, kind int) writable {
-	size := pick(r, []int{4200, 9000, 16385, 17000, 20000, 33000, 66000, 70000})
+func genLargeWritable(r *rand.Rand, kind int, i int) writable {
+	// sizes by case number, so that even the quick tier's two cases per kind cover both sides of 16 KiB and 64 KiB
+	sizes := []int{17000, 70000, 9000, 33000, 4200, 16385, 66000, 20000}
+	size := sizes[(i+kind)%len(sizes)]
 	switch kind {
 	case 0:
 		rec := genFastaRecord(r, size)
@@ -361,13 +363,13 @@ func genLargeWritable(r *rand.Rand, kind int) writable {
 // every offset of the last 6000 bytes, every offset within 40 bytes of a
 // multiple of 4096, and every 61st offset otherwise.
 func c07WriteFaultsLarge(c *Ctx) {
-	per := c.N(1, 12)
+	per := c.N(2, 16)
 	idx := int64(0)
 	for kind := 0; kind < 5; kind++ {
 		for i := 0; i < per; i++ {
 			c.Case(idx, func(k *K) {
 				r := k.Rand()
-				w := genLargeWritable(r, kind)
+				w := genLargeWritable(r, kind, i)
 				k.Input("kind", w.kind)
 				k.Input("record", w.desc)
 				want, err := w.marshal()
